@@ -2,6 +2,7 @@ package vsched
 
 import (
 	"fmt"
+	"os"
 	"time"
 )
 
@@ -165,6 +166,11 @@ func (x *explorer) explore(prefix, ns []int, depth int) {
 			panic("vsched: nondeterminism while replaying a prefix (5 attempts): " + e.Diverged + fmt.Sprintf(" prefix=%v", prefix))
 		}
 		x.st.ReplayRetries++
+		msg := e.Diverged
+		if len(msg) > 200 {
+			msg = msg[:60] + " ... " + msg[len(msg)-400:]
+		}
+		fmt.Fprintln(os.Stderr, "vsched: prefix did not replay, running it again:", msg)
 		body, check = x.sc()
 		e = runGuarded(prefix, ns, x.opts.Horizon, false, body, x.opts.ExecLimit)
 	}
